@@ -436,6 +436,91 @@ pub fn run_tcp(a: &Args) {
     out.finish();
 }
 
+/// WebSocket flavour of "the peer speaks first": a stock server sends a message right after its
+/// side of the handshake and goes silent; also in ONE write together with the 101 response
+pub fn ws_server_speaks_first(out: &mut Out) {
+    for (variant, late_ms) in [("after the handshake", 0u64), ("after the handshake", 60), ("in the same segment as the 101 response", 0), ("in the same segment as the 101 response", 60)] {
+        mark_scenario(out, &format!("Ws: the server sends a message {} and goes silent; the connecting node first polls {} ms later", variant, late_ms));
+        let l = TcpListener::bind("127.0.0.1:0").unwrap();
+        let (ctl, mut processor) = network::split();
+        let (ep, _) = ctl.connect(Transport::Ws, l.local_addr().unwrap()).unwrap();
+        let greeting = payload(late_ms + 9, 300);
+        let g2 = greeting.clone();
+        let same_segment = variant.starts_with("in the same");
+        let (done_tx, done_rx) = std::sync::mpsc::channel::<()>();
+        let server = std::thread::spawn(move || {
+            let (mut s, _) = l.accept().unwrap();
+            s.set_read_timeout(Some(Duration::from_secs(3))).unwrap();
+            if same_segment {
+                let mut reqb = vec![]; let mut b = [0u8; 1024];
+                while !reqb.windows(4).any(|w| w == b"\r\n\r\n") { match s.read(&mut b) { Ok(0) | Err(_) => return None, Ok(k) => reqb.extend_from_slice(&b[..k]) } }
+                let reqs = String::from_utf8_lossy(&reqb).to_string();
+                let key = reqs.lines().find_map(|l| { let (k, v) = l.split_once(':')?; if k.eq_ignore_ascii_case("sec-websocket-key") { Some(v.trim().to_string()) } else { None } }).unwrap_or_default();
+                let mut out = format!("HTTP/1.1 101 Switching Protocols\r\nUpgrade: websocket\r\nConnection: Upgrade\r\nSec-WebSocket-Accept: {}\r\n\r\n", tungstenite::handshake::derive_accept_key(key.as_bytes())).into_bytes();
+                out.extend([0x82u8, 126, (g2.len() >> 8) as u8, (g2.len() & 0xff) as u8]); out.extend(&g2);
+                s.write_all(&out).ok()?;
+                let _ = done_rx.recv_timeout(Duration::from_millis(2500));
+                Some(())
+            } else {
+                let mut ws = ws_accept(s).ok()?;
+                ws.send(tungstenite::Message::Binary(g2.into())).ok()?;
+                let _ = done_rx.recv_timeout(Duration::from_millis(2500));
+                Some(())
+            }
+        });
+        std::thread::sleep(Duration::from_millis(late_ms));
+        let (mut connected, mut data) = (false, vec![]);
+        let end = Instant::now() + Duration::from_millis(1500);
+        while Instant::now() < end && data.is_empty() {
+            processor.process_poll_event(Some(Duration::from_millis(20)), |e| match e { NetEvent::Connected(e2, true) if e2 == ep => connected = true, NetEvent::Message(e2, d) if e2 == ep => data = d.to_vec(), _ => {} });
+        }
+        if !connected || data != greeting {
+            out.violation(&format!("[C01,C03] Ws: the server's first message ({} bytes, sent {}) while it then stays silent; the connecting node first polled {} ms after connect(): Connected(true)={}, message delivered within 1.5 s: {}", greeting.len(), variant, late_ms, connected, data == greeting));
+        }
+        out.count("ws_server_speaks_first");
+        out.case(&format!("ws speaksfirst {} late {}", if same_segment { "same-segment" } else { "after" }, late_ms), &format!("{} {}", connected, data == greeting));
+        let _ = done_tx.send(());
+        let _ = server.join();
+    }
+}
+
+/// the same against a node whose processor thread is already polling when the handshake answer and
+/// the server's first message arrive a few microseconds apart
+pub fn ws_server_speaks_first_threaded(out: &mut Out, reps: usize) {
+    mark_scenario(out, "Ws: a stock server sends a message right after its handshake and goes silent; the connecting node's processor thread is running");
+    for rep in 0..reps {
+        let l = TcpListener::bind("127.0.0.1:0").unwrap();
+        let node = Net::new();
+        let (ep, _) = node.ctl.connect(Transport::Ws, l.local_addr().unwrap()).unwrap();
+        let greeting = payload(rep as u64 + 31, 200 + rep % 50);
+        let g2 = greeting.clone();
+        let (done_tx, done_rx) = std::sync::mpsc::channel::<()>();
+        let close_frame = rep % 3 == 2;
+        let server = std::thread::spawn(move || {
+            let (s, _) = l.accept().ok()?; let mut ws = ws_accept(s).ok()?; ws.send(tungstenite::Message::Binary(g2.into())).ok()?;
+            let mut peer_closed_tcp = true;
+            if close_frame {
+                // a close frame, then the server KEEPS its TCP connection open: the node must release its socket
+                let _ = ws.close(None); let _ = ws.flush();
+                let _ = ws.get_mut().set_read_timeout(Some(Duration::from_millis(2000)));
+                peer_closed_tcp = false;
+                for _ in 0..20 { match ws.read() { Err(tungstenite::Error::ConnectionClosed) | Err(tungstenite::Error::AlreadyClosed) => { peer_closed_tcp = true; break; } Err(tungstenite::Error::Io(e)) if e.kind() == std::io::ErrorKind::WouldBlock || e.kind() == std::io::ErrorKind::TimedOut => break, Err(_) => { peer_closed_tcp = true; break; } Ok(_) => {} } }
+            }
+            let _ = done_rx.recv_timeout(Duration::from_millis(2500));
+            Some(peer_closed_tcp)
+        });
+        let ok = node.wait(500, |ev| ev.iter().any(|e| matches!(e, Ev::Message(e2, d) if *e2 == ep && *d == greeting)));
+        let okd = !close_frame || node.wait(500, |ev| ev.iter().any(|e| matches!(e, Ev::Disconnected(e2) if *e2 == ep)));
+        let _ = done_tx.send(());
+        let server_saw_close = server.join().ok().flatten().unwrap_or(false);
+        if close_frame && !server_saw_close { out.violation("[C18,C04] Ws connector: the server sent a close frame and kept its TCP connection open; 2 s later the node still had not closed its socket"); }
+        if !ok || !okd { out.violation(&format!("[C01,C03,C04,C18] Ws connector, running processor: the stock server's first message right after the handshake{} then silence: message delivered within 2 s: {}, Disconnected after the close frame: {} (events: {})", if close_frame { " followed by a close frame" } else { "" }, ok, okd, node.snapshot().len())); }
+        out.count("ws_server_speaks_first_threaded");
+        if node.shutdown() { out.violation("[C17,C01] event processing panicked"); }
+    }
+    out.case("ws speaksfirst threaded", "ok");
+}
+
 /// a slow consumer: the callback takes 120 ms per Message while the peer has already sent everything
 /// and then stays silent; every byte / message still arrives, in order, without further traffic
 pub fn slow_consumer(t: Transport, out: &mut Out) {
@@ -896,6 +981,8 @@ pub fn run_ws(a: &Args) {
         out.case("ws stockserver", &format!("{}", got_by_server == mine));
         if nb.shutdown() { out.violation("[C17,C01] event processing panicked"); }
     }
+    ws_server_speaks_first(&mut out);
+    ws_server_speaks_first_threaded(&mut out, if a.thorough { 300 } else { 30 });
     out.finish();
 }
 
@@ -1539,6 +1626,44 @@ pub fn run_life(a: &Args) {
             out.case(&format!("life udp rep {}", rep), &format!("{}", nconn));
             if node.shutdown() { out.violation("[C17] Udp event processing panicked"); }
         }
+    }
+    // a Ws server that sends a close frame and keeps its TCP connection open (the node is the client)
+    ws_server_speaks_first_threaded(&mut out, if a.thorough { 30 } else { 6 });
+    // the listener is removed while a connection it accepted is still in its handshake: the connection
+    // either gets announced and lives on, or is dropped; it never stays behind unannounced and open
+    for rep in 0..(if a.thorough { 10 } else { 3 }) {
+        mark_scenario(&out, "net_life Ws: remove(listener) while an accepted connection has not finished its handshake; the client then completes it and later closes");
+        let node = Net::new();
+        let (lid, addr) = node.ctl.listen(Transport::Ws, "127.0.0.1:0").unwrap();
+        let fd_base = open_fds();
+        let stream = TcpStream::connect(addr).unwrap();
+        let _ = stream.set_read_timeout(Some(Duration::from_secs(2)));
+        let _ = stream.set_write_timeout(Some(Duration::from_secs(2)));
+        std::thread::sleep(Duration::from_millis(40)); // the node has accepted the TCP connection; its handshake is pending
+        let removed = node.ctl.remove(lid);
+        let hs = tungstenite::client(format!("ws://{}/x", addr), stream);
+        let announced_after = node.wait(300, |ev| ev.iter().any(|e| matches!(e, Ev::Accepted(..))));
+        match hs {
+            Ok((mut ws, _)) => {
+                let _ = ws.send(tungstenite::Message::Binary(vec![1, 2, 3].into()));
+                std::thread::sleep(Duration::from_millis(50));
+                drop(ws);
+            }
+            Err(_) => {}
+        }
+        // whatever happened: once the client is gone, the node holds no descriptor for it any more
+        let released = { let end = Instant::now() + Duration::from_secs(3); loop { if open_fds() < fd_base + 1 { break true; } if Instant::now() > end { break false; } std::thread::sleep(Duration::from_millis(10)); } };
+        let accepted = node.snapshot().iter().any(|e| matches!(e, Ev::Accepted(..)));
+        // (the descriptor is closed a moment before the Disconnected callback runs: wait for the event)
+        let disconnected = accepted && node.wait(1000, |ev| ev.iter().any(|e| matches!(e, Ev::Disconnected(..))));
+        let evs = node.snapshot();
+        if !removed || !released || (accepted && !disconnected) {
+            out.violation(&format!("[C18,C03] Ws: the listener was removed ({}) while a connection it had accepted was still in its handshake; the client then finished the handshake, sent a message and closed: Accepted delivered: {} (within 1.2 s of the handshake: {}), Disconnected delivered: {}, the node released the connection's descriptor within 3 s of the client's close: {}", removed, accepted, announced_after, disconnected, released));
+        }
+        lifecycle_check("Ws listener removed during handshake", &evs, &[], &[lid], &mut out);
+        out.count("life_listener_removed_during_handshake");
+        out.case(&format!("life listener-removed-during-handshake rep {}", rep), &format!("{} {}", accepted, released));
+        if node.shutdown() { out.violation("[C17,C18] event processing panicked"); }
     }
     // C18: everything was shut down: descriptors and threads are back to where they were
     let end = Instant::now() + Duration::from_secs(3);
